@@ -28,7 +28,7 @@ ASSUMPTIONS = ["a day with valid temperature: daily feed = value present; hourly
                "fractional day counts (DST days, hourly rows) are not judged within 1 day of a threshold: the statement does not say how they round"]
 REQUIRED_REACH = {"dataset.judged": 100, "criterion.judged": 500, "criterion.expected_dq": 60, "criterion.exact_threshold": 10,
                   "warning.condition_generated": 20, "post_init.counters": 100, "class.daily": 40, "class.billing": 10, "class.hourly": 10, "entry.billing_from_series": 12,
-                  "entry.billing_from_series_first_and_last_period_differ": 6, "billing.span_on_a_length_threshold": 6, "billing.day_count_compared": 10, "negative.only_on_incomplete_rows": 1}
+                  "entry.billing_from_series_first_and_last_period_differ": 6, "billing.span_on_a_length_threshold": 6, "billing.day_count_compared": 10, "negative.only_on_incomplete_rows": 1, "entry.billing_class_fed_with_daily_rows": 10, "billing.calendar_month_without_any_reading": 6}
 UNIVERSE = {"no_data", "incorrect_number_of_total_days", "too_many_days_with_missing_data", "too_many_days_with_missing_meter_data",
             "too_many_days_with_missing_temperature_data", "missing_monthly_temperature_data", "missing_monthly_meter_data",
             "missing_monthly_ghi_data", "negative_meter_values"}
@@ -429,6 +429,57 @@ def run_billing(spec, rng, keys):
     keys.add("billing|%s|%s|%s|%d|%s|%d|%s" % (role, entry, tz, days, off, spec["k_temp"], ",".join(sorted(exp))))
 
 
+def run_billing_interval(spec, rng, keys):
+    """The billing classes fed with DAILY meter rows (interval data rolled up to calendar months, warning inferior_model_usage): a calendar
+    month counts as billed when at least one of its days has a reading; the days of a month without any reading have no valid usage."""
+    import opendsm.eemeter as em
+    role, tz = spec["role"], spec["tz"]
+    I.reach("class.billing")
+    I.reach("entry.billing_class_fed_with_daily_rows")
+    start = pd.Timestamp(year=2018, month=int(spec["start_month"]), day=int(spec.get("start_day", 1)))
+    end = pd.Timestamp(year=2018, month=int(spec["start_month"]), day=1) + pd.DateOffset(months=int(spec["n_months"]))
+    didx = pd.date_range(start.tz_localize(tz), end.tz_localize(tz), freq="D", inclusive="left")
+    n = len(didx)
+    T = np.round(daily_weather(rng, didx), 2)
+    y = np.round(20 + 1.0 * np.maximum(55 - T, 0) + 0.6 * np.maximum(T - 68, 0) + rng.normal(0, 1, n), 3)
+    y = np.maximum(y, 0.5)
+    months = didx.month.values
+    interior = [int(m) for m in pd.unique(months)][1:-1]
+    miss = [interior[int(j)] for j in rng.choice(len(interior), size=min(int(spec["k_months"]), len(interior)), replace=False)] if spec["k_months"] else []
+    y[np.isin(months, miss)] = np.nan
+    if miss:
+        I.reach("billing.calendar_month_without_any_reading")
+    # a few isolated missing days inside billed months do not un-bill the month
+    iso = rng.choice(np.flatnonzero(~np.isin(months, miss))[1:-1], size=int(spec.get("k_iso", 0)), replace=False) if spec.get("k_iso") else []
+    y[iso] = np.nan
+    mt = place_gaps(rng, n, spec["k_temp"], "random", didx)
+    TT = T.copy()
+    TT[mt] = np.nan
+    gas = bool(spec.get("gas"))
+    df = pd.DataFrame({"temperature": TT, "observed": y}, index=didx)
+    cls = em.BillingBaselineData if role == "baseline" else em.BillingReportingData
+    try:
+        if spec["entry"] == "frame":
+            data = cls(df, is_electricity_data=not gas)
+        else:
+            data = cls.from_series(df["observed"].rename("usage"), df["temperature"].rename("temp"), is_electricity_data=not gas)
+    except Exception as e:
+        add("well-formed-input-rejected:%s:billing" % type(e).__name__, "billing/%s fed with daily rows raised %s: %s" % (role, type(e).__name__, str(e)[:200]),
+            spec={k: v for k, v in spec.items() if k not in ("seed", "tier", "i")})
+        return
+    usage_ok = ~np.isin(months, miss)
+    temp_ok = np.isfinite(TT)
+    t = didx.asi8 if didx.unit == "ns" else didx.as_unit("ns").asi8
+    # every row's period runs up to the next timestamp: append the closing instant so that the last day counts like any other day
+    closing = pd.DatetimeIndex([didx[-1] + pd.DateOffset(days=1)])
+    allidx = didx.append(closing)
+    t = allidx.asi8 if allidx.unit == "ns" else allidx.as_unit("ns").asi8
+    exp, margins = CR.expected(t, local_dates(allidx), np.append(usage_ok, False), np.append(temp_ok, True), role == "baseline", usage_supplied=True)      # the closing instant is not a day: it ends the last period only
+    cond = (["utc_index"] if tz == "UTC" else []) + ["inferior_model_usage"]
+    judge(data, exp, margins, tz in NO_DST, dict(spec, family="billing", entry=("interval-rows/" if int(spec.get("start_day", 1)) == 1 else "interval-rows-starting-mid-month/") + spec["entry"]), cond)
+    keys.add("billing-interval|%s|%s|%s|%d|%s|%d|%s" % (role, spec["entry"], tz, n, miss, spec["k_temp"], ",".join(sorted(exp))))
+
+
 def gen_cases(tier, seed):
     rng = np.random.default_rng([seed, 10])
     q = tier == "quick"
@@ -503,6 +554,15 @@ def gen_cases(tier, seed):
             cases[-1].update(offcycle=None, n_periods=12, target_days=[365, 366, 364, 330, 329][(i // 3) % 5], first_longer_than_last=[True, False, None][(i // 3) % 3], k_temp=0)
             if cases[-1]["target_days"] < 340:
                 cases[-1]["n_periods"] = 11
+    # the billing classes fed with daily rows: whole calendar months without any reading between months with readings
+    for i in range(12 if q else 120):
+        cases.append(dict(kind="billing-interval", family="billing", role="baseline" if i % 4 else "reporting", tz=str((NO_DST + DST)[(i * 3 + i // 14) % 14]), start_month=1 + (i * 5) % 12,
+                          n_months=[12, 12, 11, 12][i % 4], k_months=[2, 0, 1, 3, 2, 1][i % 6], k_iso=[0, 3, 0, 10][(i // 2) % 4], k_temp=[0, 0, 5, 30][(i // 3) % 4],
+                          gas=bool(i % 2), entry=["frame", "series"][(i // 2) % 2], n=60000 + i))
+    for i in range(2 if q else 12):
+        # ... and a span that begins in the middle of a calendar month (every supplied day is complete)
+        cases.append(dict(kind="billing-interval", family="billing", role="baseline", tz=str((NO_DST + DST)[(i * 5) % 14]), start_month=1 + (i * 7) % 12, start_day=[15, 10, 20][i % 3],
+                          n_months=12, k_months=0, k_iso=0, k_temp=0, gas=bool(i % 2), entry=["frame", "series"][i % 2], n=61000 + i))
     for i in range(6 if q else 60):
         cases.append(dict(kind="billing", family="billing", role="baseline", tz=str(rng.choice(NO_DST + DST)), n_periods=12 if i % 5 < 3 else 11, k_temp=0, how_temp="random", offcycle=None,
                           entry="frame", target_days=[365, 366, 364, 330, 329][i % 5], n=40000 + i))
@@ -514,6 +574,6 @@ def run_case(spec):
     del VIOL[:]
     del COUNTERS[:]
     keys = set()
-    {"daily": run_daily, "hourly": run_hourly, "billing": run_billing}[spec["kind"]](spec, rng, keys)
+    {"daily": run_daily, "hourly": run_hourly, "billing": run_billing, "billing-interval": run_billing_interval}[spec["kind"]](spec, rng, keys)
     return dict(viol=[dict(v) for v in VIOL[:6]], reach=I.take_reach(), keys=sorted(keys),
                 hist={"class": spec["family"] + "/" + spec["role"] + "/" + spec.get("entry", "frame")}, events=1)
